@@ -28,6 +28,8 @@ class SdkDriver:
             return idx
         if idx[0] == "loopidx":
             return self.loops[idx[1]]["i"]
+        if idx[0] == "futidx":
+            return self.futs[idx[1]]
         raise ValueError(idx)
 
     def cvalue(self, op: tuple) -> Any:
